@@ -137,9 +137,28 @@ def init_facts(cx, cls):
             continue
         npaths += 1
         st = annotate(p, heap=False)
+        # `count = len(values); self.values = values; self.count = count`: a local that is stored in an attribute names that attribute
+        alias = {}
+        for key, val in st.heap.items():
+            if key.startswith('self.') and '[' not in key and isinstance(val, ast.Name):
+                alias.setdefault(val.id, key)
+
+        def canon_(e):
+            if not alias:
+                return e
+            from .loader import clone as _clone
+
+            class T(ast.NodeTransformer):
+                def visit_Name(self, n):
+                    if n.id in alias:
+                        return ast.parse(alias[n.id], mode='eval').body
+                    return n
+            return T().visit(_clone(e))
         for key, val in st.heap.items():
             if not key.startswith('self.'):
                 continue
+            if not (isinstance(val, ast.Name) and alias.get(val.id) == key):
+                val = canon_(val)
             try:
                 v = nz.norm(val)
             except NotInt:
